@@ -9,7 +9,8 @@
      one_shot                  QDiagonalization.update_nodes solves (G (x) I - dt Q (x) A) x = r,
      increment_solves_circulant_system, fixed_point_is_sequential (and the full_ versions with the
      concrete transforms): the increment of one ParaDiag iteration solves the alpha-circulant
-     all-at-once system exactly; a zero increment implies the sequential collocation recurrences.
+     all-at-once system exactly; a zero increment implies the sequential collocation recurrences;
+     error_equation            one iteration maps the error e to e' with C_alpha e' = (C_alpha - C_0) e.
    Part 2: the Gaussian rationals form a field; executable instances of all hypotheses. *)
 From Coq Require Import Arith Bool List Lia Field Ring QArith Qcanon Lqa.
 From PySDC Require Import Model.ParaDiag.
@@ -594,6 +595,108 @@ Qed.
 
 End Full.
 
+(* ------------------------------------------------------------------ error propagation of one iteration *)
+Lemma appA_add n A x y i : appA n A (fun p => x p + y p) i = appA n A x i + appA n A y i.
+Proof. unfold apply_A. rewrite <- sum_add. apply sum_ext. intros; ring. Qed.
+
+Lemma appA_sub n A x y i : appA n A (fun p => x p - y p) i = appA n A x i - appA n A y i.
+Proof. unfold apply_A. rewrite <- sum_sub. apply sum_ext. intros; ring. Qed.
+
+Lemma mv_H M x m i : (0 < M)%nat -> mv M (Hm M) x m i = x (pred M) i.
+Proof. intros HM. unfold mat_vec, H_mat. apply (sum_lastcol M (fun j => x j i) HM). Qed.
+
+(* row l of E_alpha applied to a vector: the alpha-weighted wrap-around in row 0, the predecessor below *)
+Lemma E_row N alpha (f : nat -> F) l : (l < N)%nat ->
+  sum N (fun l' => E_mat F f0 f1 fopp N alpha l l' * f l') =
+  match l with O => - (alpha * f (pred N)) | S p => - f p end.
+Proof.
+  intros Hl. destruct l as [|p].
+  - rewrite (sum_single N (pred N)).
+    + unfold E_mat. simpl (Nat.eqb 0 0). destruct (Nat.eqb_spec (S (pred N)) N); [|lia]. simpl andb. cbv iota. ring.
+    + lia.
+    + intros k Hk Hne. unfold E_mat. simpl (Nat.eqb 0 0). destruct (Nat.eqb_spec (S k) N); [lia|]. simpl. ring.
+  - rewrite (sum_single N p).
+    + unfold E_mat. simpl (Nat.eqb (S p) 0). simpl andb. cbv iota. rewrite Nat.eqb_refl. ring.
+    + lia.
+    + intros k Hk Hne. unfold E_mat. simpl (Nat.eqb (S p) 0). simpl andb. cbv iota.
+      destruct (Nat.eqb_spec (S p) (S k)); [congruence|]. ring.
+Qed.
+
+Section ErrorEquation.
+Variables (N M n : nat) (s om omi g gi alpha dt : F) (Q A : mat F) (gf : stepsv F).
+Variables (w : nat -> nat -> F) (Sm Smi Ginv : nat -> mat F) (solve : F -> vec F -> vec F) (u0 : vec F).
+Hypothesis HN : (0 < N)%nat.
+Hypothesis HM : (0 < M)%nat.
+Hypothesis Hom : om * omi = 1.
+Hypothesis HomN : om ^ N = 1.
+Hypothesis Hprim : forall j, (0 < j < N)%nat -> om ^ j <> 1.
+Hypothesis Hs : s * s * sum N (fun _ => 1) = 1.
+Hypothesis Hg : g * gi = 1.
+Hypothesis HgN : g ^ N = alpha.
+Notation W := (wfft F f0 f1 fadd fmul fdiv N s om gi).
+Notation V := (wifft F f0 f1 fadd fmul N s omi gi).
+Notation E := (E_mat F f0 f1 fopp N alpha).
+Notation dfac := (d_fac F f1 fmul fopp fdiv om gi).
+Notation Gl := (fun l => G_mat F f0 f1 fadd fmul M (dfac l)).
+Hypothesis HSS : forall l i j, (l < N)%nat -> (i < M)%nat -> (j < M)%nat -> mm M (Sm l) (Smi l) i j = dl i j.
+Hypothesis Heig : forall l i j, (l < N)%nat -> (i < M)%nat -> (j < M)%nat ->
+  mm M (mm M Q (Ginv l)) (Sm l) i j = Sm l i j * w l j.
+Hypothesis HGG : forall l i j, (l < N)%nat -> (i < M)%nat -> (j < M)%nat -> mm M (Gl l) (Ginv l) i j = dl i j.
+Hypothesis Hsolve : forall l m rhs i, (l < N)%nat -> (m < M)%nat -> (i < n)%nat ->
+  solve (w l m * dt) rhs i - (w l m * dt) * appA n A (solve (w l m * dt) rhs) i = rhs i.
+
+(* the alpha-circulant all-at-once operator  I (x) (I - dt Q (x) A) + E_alpha (x) H *)
+Definition Calpha (x : stepsv F) : stepsv F := fun l m i =>
+  x l m i - sum M (fun j => (dt * Q m j) * appA n A (x l j) i)
+    + sum N (fun l' => E l l' * mv M (Hm M) (x l') m i).
+
+Notation iter := (paradiag_iter F f0 fadd fmul fsub N M n dt Q A gf W V w Sm Smi Ginv solve u0).
+Notation incr := (paradiag_increment F f0 fadd fmul fsub N M n dt Q A gf W V w Sm Smi Ginv solve u0).
+
+(* Let ustar be the sequential collocation solution.  One ParaDiag iteration maps the error e = u - ustar
+   to e' with   C_alpha e' = (C_alpha - C_0) e,   i.e. zero except in the first step, where it is
+   -alpha times the error at the end of the block.  (For alpha -> 0 one iteration is exact; errors at
+   the end of the block equal to zero give the exact solution after one iteration.) *)
+Lemma error_equation ustar u :
+  seq_collocation N M n dt Q A gf u0 ustar ->
+  forall l m i, (l < N)%nat -> (m < M)%nat -> (i < n)%nat ->
+  Calpha (fun l m i => iter u l m i - ustar l m i) l m i =
+  match l with O => - (alpha * (u (pred N) (pred M) i - ustar (pred N) (pred M) i)) | S _ => 0 end.
+Proof.
+  intros Hseq l m i Hl Hmn Hi.
+  set (e := fun l m i => u l m i - ustar l m i).
+  assert (Hinc := full_increment_solves_alpha_system N M n s om omi g gi alpha dt Q A A gf w Sm Smi Ginv solve u0
+                    HN Hom HomN Hprim Hs Hg HgN HSS Heig HGG Hsolve u l m i Hl Hmn Hi).
+  assert (Hlin : Calpha (fun l m i => iter u l m i - ustar l m i) l m i = Calpha e l m i + Calpha (incr u) l m i).
+  { unfold Calpha, paradiag_iter.
+    rewrite (sum_ext M (fun j => dt * Q m j * appA n A (fun i0 => u l j i0 + incr u l j i0 - ustar l j i0) i)
+                       (fun j => dt * Q m j * appA n A (e l j) i + dt * Q m j * appA n A (incr u l j) i)).
+    2:{ intros j _. rewrite (appA_ext n A _ (fun p => e l j p + incr u l j p)) by (intros; unfold e; ring).
+        rewrite appA_add. ring. }
+    rewrite (sum_ext N (fun l' => E l l' * mv M (Hm M) (fun m0 i0 => u l' m0 i0 + incr u l' m0 i0 - ustar l' m0 i0) m i)
+                       (fun l' => E l l' * mv M (Hm M) (e l') m i + E l l' * mv M (Hm M) (incr u l') m i)).
+    2:{ intros l' _. rewrite !mv_H by exact HM. unfold e. ring. }
+    rewrite !sum_add. unfold e. ring. }
+  rewrite Hlin. unfold Calpha at 2. rewrite Hinc.
+  (* the residual of u in terms of the error *)
+  assert (Hres : block_residual F f0 fadd fmul fsub M n dt Q A gf u0 u l m i =
+                 sum M (fun j => (dt * Q m j) * appA n A (e l j) i)
+                 + (step_ic F M u0 u l i - step_ic F M u0 ustar l i) - e l m i).
+  { unfold block_residual, residual.
+    assert (Hs2 : sum M (fun j => dt * Q m j * appA n A (e l j) i) =
+            sum M (fun j => dt * Q m j * (appA n A (u l j) i + gf l j i))
+            - sum M (fun j => dt * Q m j * (appA n A (ustar l j) i + gf l j i))).
+    { rewrite <- sum_sub. apply sum_ext. intros j _. unfold e. rewrite appA_sub. ring. }
+    rewrite Hs2. unfold e. rewrite (Hseq l m i Hl Hmn Hi). ring. }
+  rewrite Hres. unfold Calpha.
+  rewrite (sum_ext N (fun l' => E l l' * mv M (Hm M) (e l') m i) (fun l' => E l l' * e l' (pred M) i))
+    by (intros; rewrite mv_H by exact HM; reflexivity).
+  rewrite (E_row N alpha (fun l' => e l' (pred M) i) l Hl).
+  destruct l as [|p]; unfold step_ic, uend, e; ring.
+Qed.
+
+End ErrorEquation.
+
 End Theory.
 
 (* ------------------------------------------------------------------ the Gaussian rationals are a field *)
@@ -783,3 +886,17 @@ Lemma b_iteration_converges :
   let u3 := b_iter 3 4 1 1 b_dt b_Q b_A b_g i4_W i4_V b_w b_S b_S b_Ginv b_solve b_u0 b_spread in
   (this (gnorm2 (gsub (u3 3 0 0) (b_useq 3 0 0)))%nat < 1 # 1000000)%Q.
 Proof. vm_compute. reflexivity. Qed.
+
+(* the error equation specialises to the block instance (its hypotheses are satisfiable) *)
+Lemma b_error_equation_instance u l m i : (l < 4)%nat -> (m < 1)%nat -> (i < 1)%nat ->
+  Calpha GQ g0 g1 gadd gmul gsub gopp 4 1 1 i4_alpha b_dt b_Q b_A
+    (fun l m i => gsub (paradiag_iter GQ g0 gadd gmul gsub 4 1 1 b_dt b_Q b_A b_g i4_W i4_V b_w b_S b_S b_Ginv b_solve b_u0 u l m i)
+                       (b_useq l m i)) l m i
+  = match l with O => gopp (gmul i4_alpha (gsub (u 3 0 i) (b_useq 3 0 i)))%nat | S _ => g0 end.
+Proof.
+  intros Hl Hmn Hi.
+  apply (error_equation GQ g0 g1 gadd gmul gsub gopp gdiv ginv GQ_field 4 1 1
+           i4_s i4_om i4_omi i4_g i4_gi i4_alpha b_dt b_Q b_A b_g b_w b_S b_S b_Ginv b_solve b_u0);
+    auto using i4_Hom, i4_HomN, i4_Hprim, i4_Hs, i4_Hg, i4_HgN, b_HSS, b_Heig, b_HGG, b_Hsolve with arith.
+  apply b_fixed_point_instance. exact b_useq_fixed.
+Qed.
